@@ -5,8 +5,8 @@ import ast
 
 import sympy as sp
 
-from ..astq import Inliner, U, call_name, kwarg, local_defs, statements
-from ..cfg import CFG
+from ..astq import Inliner, U, call_name, kwarg, local_defs, statements, store_targets
+from ..cfg import CFG, header_walk
 from ..index import AnalysisError, walk_no_nested
 from ..interp import Obj
 from ..normalform import F, NFUnsupported, Normalizer, equal, sym
@@ -391,6 +391,9 @@ def r5_individual(ctx):
                     continue
                 name = g.interp.eval(t, {"__mod__": sf.f.mod, "__owner__": sf.f.cls, "self": Obj(sf.f.cls, {"name": v})})
                 ax = axes.get(name, "missing")
+                if str(ax).startswith("UNKNOWN"):
+                    ctx.unknown("C03.R5", sf.f, t, f"{g.cfg.name}: the axis-0 domain could not evaluate `{name}` ({str(ax)[:120]})", instance=f"{g.cfg.name}:{v}")
+                    continue
                 ctx.check(ax == "IND", "C03.R5", sf.f, t, f"{g.cfg.name}: `{name}` is per-individual",
                           f"{g.cfg.name}: `{name}` compared by the individual sampler of `{v}` is {ax}: a decision would depend on other individuals", instance=f"{g.cfg.name}:{v}")
 
@@ -448,10 +451,43 @@ def r5b_no_cross_individual_weights(ctx, rid="C03.R5b"):
     ctx.ok(rid, f, f.node, f"{len(helpers)} helper call(s) fed with the state; no reduction over the individual axis in the sampler", construct="def sample (individual)")
 
 
+def r2b_outcome_used_as_drawn(ctx, rid="C03.R2b"):
+    """'accepted exactly when a fresh uniform draw is below exp(-D)': what the sampler acts on (revert, acceptance statistics) is the outcome
+    the decision function returned - the name it is bound to is bound once, and never rewritten (re-assignment, item store, in-place method)
+    before it is used.  A 'guard' that replaces the outcome for the whole cohort makes one individual's ratio decide for the others."""
+    ctx.rule(rid, "the outcome of the acceptance decision is bound once and never rewritten before it is acted upon", 2)
+    for sf in sample_functions(ctx.ix, rid):
+        for dn, dc, dkind, dvar in sf.decisions:
+            if dvar is None:
+                continue  # thrown-away outcomes are C02.R2's business
+            rewrites = []
+            for st in statements(sf.f.node):
+                if sf.cfg.node_of(st) == dn:
+                    continue
+                for t in store_targets(st):
+                    base = t
+                    while isinstance(base, (ast.Subscript, ast.Attribute)):
+                        base = base.value
+                    if isinstance(base, ast.Name) and base.id == dvar:
+                        rewrites.append(st)
+                for c in header_walk(st):
+                    if isinstance(c, ast.Call) and isinstance(c.func, ast.Attribute) and isinstance(c.func.value, ast.Name) and c.func.value.id == dvar \
+                            and c.func.attr.endswith("_") and not c.func.attr.endswith("__"):
+                        rewrites.append(st)
+            if rewrites:
+                g = [U(sf.cfg.stmt[h].test)[:60] for h, _ in sf.cfg.if_guards(sf.cfg.node_of(rewrites[0]))] if sf.cfg.node_of(rewrites[0]) is not None else []
+                ctx.violation(rid, sf.f, rewrites[0], f"`{U(rewrites[0])[:80]}` rewrites the outcome `{dvar}` of `{U(dc)[:50]}`" + (f" when `{g[0]}`" if g else "") +
+                              ": what is reverted / counted is no longer `u < exp(-D)` for each decision" + (" - a condition reduced over all individuals decides for every one of them" if dkind != "scalar" and g else ""),
+                              construct=f"outcome {dvar} of {dc.func.attr}")
+            else:
+                ctx.ok(rid, sf.f, dc, f"`{dvar}` is bound by `{U(dc)[:50]}` only and never rewritten", construct=f"outcome {dvar} of {dc.func.attr}")
+
+
 def rules(ctx):
     r1_exponent(ctx)
     r1c_no_inplace(ctx)
     r2_draw(ctx)
+    r2b_outcome_used_as_drawn(ctx)
     r3_proposal(ctx)
     r4_terms(ctx)
     r5_individual(ctx)
